@@ -354,6 +354,15 @@ class ExecutionState:
                 SUCCEEDED, or if the checkpoint doesn't exist, then return
                 CheckpointedResult with is_succeeded=False,result=None.
         """
+        # An operation whose parent context has completed must not make progress: stop the
+        # orphaned branch here, at its next durable operation, rather than only at the next
+        # checkpoint - an existing operation (e.g. a child context or a step found STARTED)
+        # runs its user function without creating a checkpoint first.
+        with self._parent_done_lock:
+            if checkpoint_id in self._parent_done:
+                msg = "Parent context completed, child operation cannot continue"
+                raise OrphanedChildException(msg, operation_id=checkpoint_id)
+
         # checking status are deliberately under a lighter non-serialized lock
         with self._operations_lock:
             if checkpoint := self.operations.get(checkpoint_id):
